@@ -91,8 +91,11 @@ def safe_execute(mod, scn, keep_log=False):
             res = {'violations': [], 'harness': 'run exceeded wall limit outside library code:\n' + traceback.format_exc(),
                    'stats': {}, 'nontrivial': False, 'digest': 'timeout'}
     except kernel.LibraryHang as e:
-        res = {'violations': [{'clause': 'hang', 'msg': 'thread %s made no progress for %.0f s of wall time inside %s (endless or super-linear loop)' % (
-            e.thread, 20.0, e.site), 'feat': {'site': e.site}}], 'stats': {}, 'nontrivial': True, 'digest': 'hang'}
+        if 'self-deadlock' in e.site:
+            msg = '%s never returns: %s' % (e.thread, e.site)
+        else:
+            msg = 'thread %s made no progress for %.0f s of wall time inside %s (endless or super-linear loop)' % (e.thread, 20.0, e.site)
+        res = {'violations': [{'clause': 'hang', 'msg': msg, 'feat': {'site': e.site}}], 'stats': {}, 'nontrivial': True, 'digest': 'hang'}
     except kernel.IllegalFrame as e:
         res = {'violations': [{'clause': 'illegal-frame', 'msg': 'the stack handed send_message a frame no CAN interface can send: %s' % e, 'feat': {}}],
                'stats': {}, 'nontrivial': True, 'digest': 'illegal-frame'}
